@@ -265,7 +265,7 @@ def multi_programs(tier):
             progs.append({'multi': t, 'sep': sep, 'gen': False})
     # runs that are each NOT a multiple of 8 although the widths of the whole class add up to one: rejected at class definition
     for a, b in (((4,), (4,)), ((3,), (5,)), ((1, 2), (5,)), ((4, 8), (4,)), ((7,), (9,)), ((4,), (12,)), ((2,), (3, 3))):
-        for sep in ('int', 'data', 'seq', 'em'):
+        for sep in ('int', 'data', 'seq'):       # (not Em(): whether a byte-less placeholder separates two runs is not spelled out)
             progs.append({'multi': [a, b], 'sep': sep, 'bad': True})
     # ... and a good run next to a bad one
     for a, b in (((4, 4), (3,)), ((3,), (4, 4)), ((8,), (4, 5))):
